@@ -111,7 +111,7 @@ func c15observe(c *ctx, cfg c15cfg, lim c15lim) (row c15row) {
 	if cfg.HasStart {
 		b.WriteString("schedule:\n  stage-start: " + start.Format(time.RFC3339) + "\n")
 	}
-	b.WriteString("default:\n  jitter: 0\n")
+	b.WriteString("default:\n  jitter: 0\n  volume: 5000\n  repeat: 10s\n  peak: 5s\n  weights: \"\"\n  standard-deviation: 1s\n")
 	b.WriteString(c15render(cfg.Def, "  "))
 	b.WriteString("stages:\n")
 	for _, st := range cfg.Stages {
@@ -135,7 +135,7 @@ func c15observe(c *ctx, cfg c15cfg, lim c15lim) (row c15row) {
 		return row
 	}
 	row.Accepted = true
-	t0 := time.Unix(1_900_000_000, 0)
+	t0 := time.Unix(1_900_000_000, 0) // a multiple of 10 s: the start of a gaussian repeat window
 	for _, st := range rs.Stages {
 		v := c15view{Dur: int(st.StageDuration / time.Millisecond), Ptag: st.Params["VERIF_TAG"]}
 		switch {
@@ -192,7 +192,7 @@ func c15classify(stageDur, iterDur time.Duration, rate func(time.Time) int, v c1
 	first := rate(t0)
 	last := rate(t0.Add(stageDur))
 	switch {
-	case first != last:
+	case first != last && iterDur == time.Second:
 		v.Mode, v.A, v.B = "ramp", first, last
 	case iterDur == time.Second:
 		v.Mode, v.A, v.B = "constant", first, 0
@@ -204,7 +204,12 @@ func c15classify(stageDur, iterDur time.Duration, rate func(time.Time) int, v c1
 		}
 		v.Mode, v.A, v.B = "constant", sum, 1
 	default:
-		v.Mode, v.A, v.B = "staged", first, int(iterDur/time.Millisecond)
+		// staged "0s:n,10s:n" is flat at n >= 30; a gaussian (peak 5 s, sigma 1 s, 10 s window) is ~0 at a window start
+		if first >= 30 {
+			v.Mode, v.A, v.B = "staged", first, int(iterDur/time.Millisecond)
+		} else {
+			v.Mode, v.A, v.B = "gaussian", 0, int(iterDur/time.Millisecond)
+		}
 	}
 	return v
 }
@@ -217,7 +222,7 @@ func init() {
 		}
 		defer w.close()
 		absent := c15stage{Dur: -1, Rate: -1, Dist: -1, Conc: -1, Start: -1, End: -1, Stg: -1, Freq: -1}
-		modes := []string{"constant", "users", "ramp", "staged"}
+		modes := []string{"constant", "users", "ramp", "staged", "gaussian"}
 		n := c.pick(1500, 15000)
 		for k := 0; k < n; k++ {
 			// default section: each field present with probability 1/2, values distinct from the stages' values
@@ -227,7 +232,7 @@ func init() {
 				def.Dur = 2000 + 1000*c.rng.Intn(3)
 			}
 			if !pick(3) {
-				def.Mode = modes[c.rng.Intn(4)]
+				def.Mode = modes[c.rng.Intn(5)]
 			}
 			if pick(2) {
 				def.Rate = 70 + c.rng.Intn(5)
@@ -266,7 +271,7 @@ func init() {
 					}
 				}
 				if !pick(3) {
-					st.Mode = modes[c.rng.Intn(4)]
+					st.Mode = modes[c.rng.Intn(5)]
 				}
 				if pick(2) {
 					st.Rate = 1 + c.rng.Intn(9)
